@@ -99,6 +99,10 @@ def _observe(job):
         m = GaussianMultivariate(**config(cfg, cols))
         if seed % 3 == 1:       # an instance with a past: fitted to, and used on, a table with another dependence
             old = pd.DataFrame({c: rs.permutation(df[c].to_numpy()) for c in cols})
+            if seed % 2:      # the earlier table had the same columns in another order (and, now and then, one more in front)
+                old = old[cols[::-1]]
+                if seed % 4 == 1:
+                    old.insert(0, 'extra', np.arange(len(old), dtype=float) % 7)
             try:
                 m.fit(old)
                 m.sample(2)
